@@ -47,7 +47,13 @@ func (f fakeImporter) Import(path string) (*types.Package, error) {
 	return p, nil
 }
 
+func defImporter() types.Importer { return importer.Default() }
+
 func load(dir string, withTests bool) (*pkg, error) {
+	return loadWith(dir, fakeImporter{importer.Default()})
+}
+
+func loadWith(dir string, imp types.Importer) (*pkg, error) {
 	fset := token.NewFileSet()
 	ents, err := os.ReadDir(dir)
 	if err != nil {
@@ -66,11 +72,12 @@ func load(dir string, withTests bool) (*pkg, error) {
 		p.files = append(p.files, f)
 		p.names = append(p.names, n)
 	}
-	conf := types.Config{Importer: fakeImporter{importer.Default()}, Error: func(error) {}}
+	conf := types.Config{Importer: imp, Error: func(error) {}}
 	p.info = &types.Info{
-		Types: map[ast.Expr]types.TypeAndValue{},
-		Defs:  map[*ast.Ident]types.Object{},
-		Uses:  map[*ast.Ident]types.Object{},
+		Types:      map[ast.Expr]types.TypeAndValue{},
+		Defs:       map[*ast.Ident]types.Object{},
+		Uses:       map[*ast.Ident]types.Object{},
+		Selections: map[*ast.SelectorExpr]*types.Selection{},
 	}
 	p.tp, _ = conf.Check(dir, fset, p.files, p.info)
 	return p, nil
